@@ -18,6 +18,7 @@ pub mod c39;
 pub mod c41;
 pub mod c42;
 pub mod cfgdiff;
+pub mod dist;
 pub mod sem;
 pub mod shapes;
 pub mod storage;
@@ -34,6 +35,8 @@ fn table() -> Vec<(&'static str, CheckFn)> {
         ("C06", c06::run),
         ("C07", cfgdiff::run_c07),
         ("C08", sem::run_c08),
+        ("C09", dist::run_c09),
+        ("C10", dist::run_c10),
         ("C11", c11::run_c11),
         ("C12", c12::run),
         ("C13", storage::run_c13),
@@ -58,6 +61,7 @@ fn table() -> Vec<(&'static str, CheckFn)> {
         ("C42", c42::run),
         ("C43", c38::run_c43),
         ("C44", sem::run_c44),
+        ("C45", dist::run_c45),
     ]
 }
 
